@@ -1,6 +1,8 @@
 import Model.Base.Proto
 import Model.Tab.TextTab
 import Model.Spec.Layout
+import Model.Tab.KeyHeader
+import Model.Spec.KeyHeader
 
 namespace Driver.C16
 open Proto Tab.TextTab
@@ -71,10 +73,37 @@ def handleTab (l : Line) : IO Unit := do
           IO.println s!"spec {id} layout={v}"
         | none => IO.println s!"spec {id} layout=ok"
 
+/- case <id> kind=kh nf=<fields> nk=<keys> keys=<k;k;…>   k = hex,hex,… (one value per field)
+   obs  <id> tree={field:hexvalue:start:len{children}…}
+   spec <id> lv=<level>/<level>…   level = hexvalue:start:len,… -/
+
+partial def showNode : Tab.KeyHeader.Node → String
+  | .mk f v s l cs => "{" ++ s!"{f}:{v.toHex}:{s}:{l}" ++ String.join (cs.map showNode) ++ "}"
+
+def showForest (ns : List Tab.KeyHeader.Node) : String :=
+  if ns.isEmpty then "-" else String.join (ns.map showNode)
+
+def parseKeys (s : String) (nk : Nat) : List (List Bytes) :=
+  if nk == 0 then [] else
+  (s.splitOn ";").map fun k => if k == "" then [] else (k.splitOn ",").map fun v => (Bytes.ofHex v).getD []
+
+def handleKh (l : Line) : IO Unit := do
+  let id := l.id
+  let nf := (l.nat? "nf").getD 0
+  let nk := (l.nat? "nk").getD 0
+  let keys := parseKeys (l.getD "keys" "") nk
+  let top := Tab.KeyHeader.newKeyHeader keys nf
+  IO.println s!"obs {id} tree={showForest top}"
+  let lv := (List.range nf).map fun k =>
+    let ns := Spec.KeyHeader.specLevel keys k
+    if ns.isEmpty then "-" else ",".intercalate (ns.map fun (v, s, n) => s!"{v.toHex}:{s}:{n}")
+  IO.println s!"spec {id} lv={if lv.isEmpty then "-" else "/".intercalate lv}"
+
 def handle (l : Line) : IO Unit := do
   if l.kind != "case" then return
   match l.getD "kind" with
   | "tab" => handleTab l
+  | "kh" => handleKh l
   | _ => pure ()
 
 end Driver.C16
